@@ -89,6 +89,20 @@ class Coefficient(Terminal):
         super().__init__(Rat.var(name), (), name)
 
 
+class Constant(Terminal):
+    """a ufl.Constant: complex-valued in complex mode, like a coefficient, but of another class"""
+
+    def __init__(self, name):
+        super().__init__(Rat.var(name), (), name)
+
+
+class GeometricQuantity(Terminal):
+    """a real-valued geometric terminal (its symbol starts with "u": its own conjugate)"""
+
+    def __init__(self, name):
+        super().__init__(Rat.var("ugeo_" + name), (), name)
+
+
 class FloatValue(Terminal):
     def __init__(self, v):
         super().__init__(Rat.const(Fr(v)), (), f"lit{Fr(v)}")
@@ -364,6 +378,9 @@ def fact_driver(repo, res):
     scenario("bilinear: conjugated test function (sesquilinear form)", [(a * u0 + u1) * Conj(b * v0 + v1)], 2, [v0, v1, u0, u1])
     scenario("bilinear: conjugated complex literal factor", [(a * u0) * Conj(ComplexValue(2, 3) * v0 + v1)], 2, [v0, v1, u0])
     scenario("bilinear: conjugated literal-only product", [u0 * Conj(ComplexValue(0, 1) * v1)], 2, [v1, u0])
+    # every complex-valued terminal under a conjugation is conjugated, whatever its class; real-valued geometry may be kept
+    scenario("bilinear: conjugated constant factor", [(a * u0) * Conj(Constant("kappa") * v0 + v1)], 2, [v0, v1, u0])
+    scenario("bilinear: conjugated product of geometry, constant and coefficient", [u0 * Conj((GeometricQuantity("x0") * Constant("kappa")) * v1 + (GeometricQuantity("detJ") * b) * v0)], 2, [v0, v1, u0])
     cond = Condition()
     scenario("bilinear: conditional with arguments in both branches", [Conditional(cond, (a * u0) * v0 + u1 * v1, (b * u0) * v0) * g], 2, [v0, v1, u0, u1])
     scenario("bilinear: conditional with a zero branch", [Conditional(cond, Zero(), (b * u0) * v1)], 2, [v1, u0])
